@@ -20,8 +20,8 @@ PROPS['C15'] = dict(
     units=real_units('c15', 'c15_davidson.cpp'),
     runs=dict(
         quick=[dict(unit='c15_d', cases=3000, workers=2), dict(unit='c15_f', cases=3000, workers=1), dict(unit='c15_l', cases=3000, workers=1)],
-        thorough=[dict(unit='c15_d', cases=40000, workers=8, set=dict(nmax=60)), dict(unit='c15_f', cases=40000, workers=4, set=dict(nmax=60)),
-                  dict(unit='c15_l', cases=25000, workers=4, set=dict(nmax=60))],
+        thorough=[dict(unit='c15_d', cases=25000, workers=8, set=dict(nmax=60)), dict(unit='c15_f', cases=25000, workers=4, set=dict(nmax=60)),
+                  dict(unit='c15_l', cases=15000, workers=4, set=dict(nmax=60))],
     ),
     min=dict(quick=dict(cases=10000, nontrivial=5000, classes={'info/Successful': 2500, 'info/NotConverging': 1500, 'restarted': 1500, 'Successful/after_restart': 200,
                                                                  'Successful/user_space_orthonormal': 800, 'user_space/unit_columns_not_orthogonal': 800,
@@ -29,7 +29,7 @@ PROPS['C15'] = dict(
                                                                  'initial_space/with_exact_eigenvectors': 300, 'wrapper/sparse': 2000, 'search_space_reached_n': 500,
                                                                  'class/block_diagonal': 400, 'class/decoupled_coordinates': 400, 'initial_size_1': 300,
                                                                  'max_size_above_n_via_setter': 300, 'two_computes_on_one_object': 500}),
-             thorough=dict(cases=500000, nontrivial=250000)),
+             thorough=dict(cases=300000, nontrivial=150000)),
     rule='case = (matrix class, n in [2,40] (thorough 60), content seed / drawn structure, scale, size form and sizes, wrapper, then per compute: rule, maxit, tol, initial-space kind, '
          'its number of columns and content seed). Non-trivial = the search space was restarted at least once or the initial space was supplied by the caller; '
          'distinct = 64-bit hash of the draw log.',
